@@ -279,6 +279,13 @@ func TestVX_C12(t *testing.T) {
 			run(c12case{"oncurve", hexs(x, fy), fmt.Sprintf("k%d:flipy%d", ki, bit)})
 		}
 	}
+	for pi, P := range sm2ref.SmallXPoints(6) {
+		run(c12case{"oncurve", hexs(b32(P.X), b32(P.Y)), fmt.Sprintf("smallx%d:canonical", pi)})
+		run(c12case{"oncurve", hexs(b32(new(big.Int).Add(P.X, sm2ref.P)), b32(P.Y)), fmt.Sprintf("smallx%d:x+p", pi)})
+		if yp := new(big.Int).Add(P.Y, sm2ref.P); yp.BitLen() <= 256 {
+			run(c12case{"oncurve", hexs(b32(P.X), b32(yp)), fmt.Sprintf("smallx%d:y+p", pi)})
+		}
+	}
 	g := sm2ref.G()
 	gx, gy := b32(g.X), b32(g.Y)
 	pB := b32(sm2ref.P)
